@@ -38,6 +38,10 @@ type Envelope struct {
 	From, To peer.ID
 	Bytes    []byte
 	Msg      gsmsg.GraphSyncMessage // decoded form of Bytes (what the receiver will see)
+	// DeliveredAtSeq is the number of messages the network had accepted when this one was
+	// released to its receiver (-1 while undelivered): message k was sent before this
+	// delivery iff k < DeliveredAtSeq.
+	DeliveredAtSeq int
 }
 
 type linkKey struct{ from, to peer.ID }
@@ -164,7 +168,7 @@ func (n *Net) enqueue(from, to peer.ID, msg gsmsg.GraphSyncMessage) error {
 	if n.closed {
 		return errors.New("network closed")
 	}
-	env := &Envelope{Seq: n.seq, From: from, To: to, Bytes: b, Msg: dec}
+	env := &Envelope{Seq: n.seq, From: from, To: to, Bytes: b, Msg: dec, DeliveredAtSeq: -1}
 	n.seq++
 	n.Sent = append(n.Sent, env)
 	l := n.getLink(from, to)
@@ -185,7 +189,7 @@ func (n *Net) InjectRaw(from, to peer.ID, b []byte) error {
 	}
 	n.mu.Lock()
 	defer n.mu.Unlock()
-	env := &Envelope{Seq: n.seq, From: from, To: to, Bytes: b, Msg: dec}
+	env := &Envelope{Seq: n.seq, From: from, To: to, Bytes: b, Msg: dec, DeliveredAtSeq: -1}
 	n.seq++
 	n.Sent = append(n.Sent, env)
 	l := n.getLink(from, to)
@@ -249,6 +253,7 @@ func (n *Net) Deliver(from, to peer.ID) *Envelope {
 	}
 	env := l.queue[0]
 	l.queue = l.queue[1:]
+	env.DeliveredAtSeq = n.seq
 	l.release <- env
 	return env
 }
@@ -523,4 +528,14 @@ func (n *Net) Transcript() string {
 		fmt.Fprintf(&sb, "#%d %s->%s %s\n", e.Seq, e.From, e.To, DescribeMsg(e.Msg))
 	}
 	return sb.String()
+}
+
+// SentSince returns the envelopes accepted by the network from index i on.
+func (n *Net) SentSince(i int) []*Envelope {
+	n.mu.Lock()
+	defer n.mu.Unlock()
+	if i >= len(n.Sent) {
+		return nil
+	}
+	return append([]*Envelope(nil), n.Sent[i:]...)
 }
